@@ -152,6 +152,17 @@ class Gen(object):
                         ('val{}'.format(self.next()),
                          rng.choice([0, 1, 5, 7, 20, 255, 256, 70000])))
 
+                # The same value name as in an earlier module, with another
+                # number (which one a reference means depends on the module
+                # it is looked up from).
+                earlier_values = [v for m in self.modules[:index]
+                                  for v in m.values]
+
+                if earlier_values and rng.random() < 0.5:
+                    vname, vvalue = rng.choice(earlier_values)
+                    module.values.append(
+                        (vname, vvalue + rng.choice([1, 3, 100, 1000])))
+
             n_types = self.n_types if index == n_modules - 1 else max(
                 2, self.n_types // 2)
 
@@ -199,6 +210,13 @@ class Gen(object):
             # octets of every message of this type).
             number = rng.choice([0, 1, 30, 31, 127, 128, 16383, 16384,
                                  2 ** 21 - 1, 2 ** 21, 2 ** 28 - 1, 2 ** 28])
+
+            if rng.random() < 0.6:
+                # Any identifier octet value may matter.
+                number = rng.choice([rng.randrange(31, 400),
+                                     rng.randrange(31, 400),
+                                     rng.randrange(400, 2 ** 28)])
+
             cls = rng.choice(['', 'APPLICATION ', 'PRIVATE '])
             kind = rng.choice(['', ' EXPLICIT', ' IMPLICIT'])
 
@@ -573,8 +591,20 @@ class Gen(object):
             return None
 
         name, node = rng.choice(candidates)
+        text = name
+        values = self.visible_values()
 
-        return Node(k='REF', text=name, utags=node.utags, zero=node.zero,
+        if (node.k == 'INTEGER' and node.lo is None and node.hi is None
+                and not node.tagged_top and self.has('int_valueref')
+                and values and rng.random() < 0.5):
+            # A further constraint on the referenced type, bounded by a
+            # value reference.
+            vname, vvalue = rng.choice(values)
+
+            if vvalue >= 1:
+                text = '{} ({}..{})'.format(name, rng.choice([0, 1]), vname)
+
+        return Node(k='REF', text=text, utags=node.utags, zero=node.zero,
                     ref=name, target=node)
 
     def is_choiceish(self, node):
@@ -594,7 +624,9 @@ class Gen(object):
 
         if self.has('big_tags') and rng.random() < 0.2:
             number = rng.choice([30, 31, 127, 128, 16383, 16384, 2 ** 21,
-                                 2 ** 28 - 1, 2 ** 28]) + number
+                                 2 ** 28 - 1, 2 ** 28,
+                                 rng.randrange(31, 400) * 64,
+                                 rng.randrange(31, 2 ** 21) * 64]) + number
 
         cls = ''
 
